@@ -37,6 +37,10 @@ pub fn hash_str(s: &str) -> u64 {
 }
 
 impl Rng {
+    pub const fn from_state(s: [u64; 4]) -> Rng {
+        Rng { s }
+    }
+
     pub fn new(seed: u64) -> Rng {
         let mut x = seed;
         let s = [
